@@ -440,6 +440,8 @@ LIFECYCLES = [
     ("serve+requests, shutdown, shutdown, server_close", True, 2, False, ["shutdown", "shutdown", "server_close"]),
     ("serve, no request, shutdown, server_close", True, 0, False, ["shutdown", "server_close"]),
     ("serve+in-flight gated requests, shutdown, server_close", True, 2, True, ["shutdown", "server_close"]),
+    ("serve+more in-flight gated requests than workers (the rest accepted and queued), shutdown, server_close",
+     True, 2, "queued", ["shutdown", "server_close"]),
     ("never served, server_close", False, 0, False, ["server_close"]),
     ("never served, server_close, server_close", False, 0, False, ["server_close", "server_close"]),
     ("handle_request x2 (no serve_forever), server_close", "handle", 2, False, ["server_close"]),
@@ -452,6 +454,8 @@ def lifecycle(ctx, rng, cell, family, lc):
     label, serve, nreq, inflight, ops = lc
     if ops == ["server_close"] and serve is True and cell[0] == "simple":
         return  # closing a sequential server that is still serving is outside the stated histories
+    if inflight == "queued" and (cell[0] != "pooled" or cell[1] is None or cell[1] in BOUNDED_QUEUE):
+        return  # needs a request pool of known size with an unbounded queue
     gate = threading.Event() if inflight else None
     sut = SrvUnderTest(cell, family, gate)
     case = {"cell": [cell[0], cell[1]], "family": family, "lifecycle_label": label}
@@ -482,6 +486,10 @@ def lifecycle(ctx, rng, cell, family, lc):
     flyers = []
     if inflight:
         n_in = 1 if cell[0] == "simple" else min(2, cell[1] or 2)
+        busy = n_in
+        if inflight == "queued":
+            busy = cell[1]               # every worker inside the gate ...
+            n_in = cell[1] + 2           # ... and two more requests accepted and waiting in the pool's queue
 
         def flyer(i):
             p = jsonrpclib.ServerProxy(sut.srv.url)
@@ -496,8 +504,10 @@ def lifecycle(ctx, rng, cell, family, lc):
             t.daemon = True
             t.start()
         t0 = time.monotonic()
-        while sut.in_gate[0] < n_in and time.monotonic() - t0 < 10:
+        while sut.in_gate[0] < busy and time.monotonic() - t0 < 10:
             time.sleep(0.002)
+        if inflight == "queued":
+            time.sleep(0.15)             # the accept loop takes the remaining connections and queues them
         release = gate.set
     ok = lifecycle_close(ctx, sut, case, ops, label, release)
     if inflight and ok:
